@@ -18,10 +18,10 @@ use std::collections::BTreeMap;
 use std::marker::PhantomData;
 use std::panic::AssertUnwindSafe;
 
-use wf_harness::{airfam::*, catch, coinrec, coinrec::RecordingCoin, jstr, lagfam::{LagAir, LagTrace}, prng::Rng, silence_panics, toy::ToyHasher};
+use wf_harness::{airfam::*, catch, coinrec, coinrec::RecordingCoin, jstr, lagfam::{LagAir, LagProver, LagTrace}, prng::Rng, silence_panics, toy::ToyHasher};
 use winter_air::{
     proof::{Context, OodFrame, Proof, Queries, TraceOodFrame},
-    Air, AirContext, AuxRandElements, ConstraintCompositionCoefficients, EvaluationFrame, FieldExtension, LagrangeKernelRandElements, ProofOptions, TraceInfo,
+    Air, AirContext, AuxRandElements, ConstraintCompositionCoefficients, EvaluationFrame, FieldExtension, LagrangeKernelEvaluationFrame, LagrangeKernelRandElements, ProofOptions, TraceInfo,
     TransitionConstraintDegree,
 };
 use winter_crypto::{
@@ -159,6 +159,7 @@ fn vclass(e: &VerifierError) -> &'static str {
         VerifierError::ProofDeserializationError(_) => "deser",
         VerifierError::RandomCoinError => "coin",
         VerifierError::UnsupportedFieldExtension(_) => "ext",
+        VerifierError::GkrProofVerificationFailed(_) => "gkr",
         _ => "other",
     }
 }
@@ -1196,6 +1197,218 @@ where B: StarkField + ExtensibleField<2> + ExtensibleField<3> + 'static, E: Fiel
     Ok(())
 }
 
+/// one correspondence line for a member of the Lagrange family (harness/src/lagfam.rs): the proof is parsed over E, the coin
+/// outputs are split in the order of verify() with a Lagrange kernel column: GKR random elements, ordinary auxiliary random
+/// elements, transition (main, aux), boundary (main, aux), Lagrange transition (log2 n), Lagrange boundary, z, DEEP trace
+/// (1 + aw), DEEP constraint columns, DEEP Lagrange.  The GKR verdict handed to the model is computed from the DEFINITION of
+/// the family's GkrVerifier (a proof value > 64 is refused).
+fn lag_corr_line<B, E, H>(tag: &str, proof: Proof, acc_opts: &[ProofOptions], out: &mut Vec<String>)
+where B: StarkField + ExtensibleField<2> + ExtensibleField<3> + 'static, E: FieldElement<BaseField = B>, H: ElementHasher<BaseField = B> + Send + Sync {
+    let bytes = proof.to_bytes();
+    let popts = proof.options().clone();
+    let info = proof.trace_info().clone();
+    let _ = coinrec::take_log();
+    let _ = wf_harness::lagfam::take_uses();
+    let acc = AcceptableOptions::OptionSet(acc_opts.to_vec());
+    let res = catch(AssertUnwindSafe(|| verify::<LagAir<B>, H, RecordingCoin<DefaultRandomCoin<H>>>(proof, (), &acc)));
+    let log = parse_log(&coinrec::take_log());
+    let _ = wf_harness::lagfam::take_uses();
+    let verdict = match &res { Ok(Ok(())) => "accept".to_string(), Ok(Err(e)) => vclass(e).to_string(), Err(_) => "panic".to_string() };
+    let proof = Proof::from_bytes(&bytes).unwrap();
+    let air = LagAir::<B>::new(info.clone(), (), popts.clone());
+    let n = air.trace_length();
+    let v = n.ilog2() as usize;
+    let w = info.main_trace_width();
+    let aw = info.aux_segment_width();
+    let nr = info.get_num_aux_segment_rand_elements();
+    let lde = air.lde_domain_size();
+    let ncols = air.context().num_constraint_composition_columns();
+    let nt = air.context().num_transition_constraints();
+    let ntm = air.context().num_main_transition_constraints();
+    let na = air.context().num_assertions();
+    let fri_opts = popts.to_fri_options();
+    // the GKR "proof" of the family is the number of random elements to draw; the family's verifier refuses values > 64
+    let gkr_val: Option<usize> = proof.gkr_proof.as_ref().and_then(|b| <usize as winter_utils::Deserializable>::read_from_bytes(b).ok());
+    let gkr_ok = matches!(gkr_val, Some(x) if x <= 64);
+    let gk = if gkr_ok { gkr_val.unwrap() } else { 0 };
+    let d = &log.draws;
+    let zero = lst(&[E::ZERO]);
+    let take = |from: usize, k: usize| -> String { if d.len() >= from + k && k > 0 { d[from..from + k].join(",") } else { "-".into() } };
+    let one = |at: usize| -> String { if d.len() > at { d[at].clone() } else { zero.clone() } };
+    let lr = take(0, gk);
+    let ar = take(gk, nr);
+    let mut at = gk + nr;
+    let tc = take(at, nt); at += nt;
+    let bc = take(at, na); at += na;
+    let ltc = take(at, v); at += v;
+    let lbc = one(at); at += 1;
+    let z = one(at); at += 1;
+    let dt = take(at, w + aw); at += w + aw;
+    let dc = take(at, ncols); at += ncols;
+    let ldc = one(at);
+    let mut positions = log.positions.clone().unwrap_or_default();
+    positions.sort_unstable();
+    positions.dedup();
+    let (cur, next, acur, anext, lfr, evals) = match proof.ood_frame.clone().parse::<E>(w, aw, ncols) {
+        Ok((f, e)) => (f.current_row()[..w].to_vec(), f.next_row()[..w].to_vec(), f.current_row()[w..].to_vec(), f.next_row()[w..].to_vec(),
+                       f.lagrange_kernel_frame().map(|l| l.inner().to_vec()).unwrap_or_default(), e),
+        Err(_) => (vec![], vec![], vec![], vec![], vec![], vec![]) };
+    let nq = proof.num_unique_queries as usize;
+    let (roots, croot) = match proof.commitments.clone().parse::<H>(info.num_segments(), fri_opts.num_fri_layers(lde)) { Ok((t, c, _)) => (t, Some(c)), Err(_) => (vec![], None) };
+    let mut tauth = false;
+    let mut qt: Vec<Vec<B>> = vec![];
+    if let Ok((mp, table)) = proof.trace_queries[0].clone().parse::<H, B>(lde, nq, w) {
+        qt = table.rows().map(|r| r.to_vec()).collect();
+        if !roots.is_empty() && positions.len() == nq { tauth = MerkleTree::<H>::verify_batch(&roots[0], &positions, &mp).is_ok(); }
+    }
+    let mut qa: Vec<Vec<E>> = vec![];
+    let mut aauth = false;
+    if proof.trace_queries.len() > 1 {
+        if let Ok((mp, table)) = proof.trace_queries[1].clone().parse::<H, E>(lde, nq, aw) {
+            qa = table.rows().map(|r| r.to_vec()).collect();
+            if roots.len() > 1 && positions.len() == nq { aauth = MerkleTree::<H>::verify_batch(&roots[1], &positions, &mp).is_ok(); }
+        }
+    }
+    tauth = tauth && aauth;
+    let mut cauth = false;
+    let mut qc: Vec<Vec<E>> = vec![];
+    if let Ok((mp, table)) = proof.constraint_queries.clone().parse::<H, E>(lde, nq, ncols) {
+        qc = table.rows().map(|r| r.to_vec()).collect();
+        if let Some(cr) = croot { if positions.len() == nq { cauth = MerkleTree::<H>::verify_batch(&cr, &positions, &mp).is_ok(); } }
+    }
+    let folding = fri_opts.folding_factor();
+    let mut fri0: Vec<E> = vec![];
+    if let Ok((layers, _)) = proof.fri_proof.clone().parse_layers::<H, E>(lde, folding) {
+        if let Some(l0) = layers.first() {
+            let row_len = lde / folding;
+            let mut folded: Vec<usize> = vec![];
+            for p in &positions { let f = p % row_len; if !folded.contains(&f) { folded.push(f); } }
+            if l0.len() == folded.len() * folding {
+                for p in &positions { let i = folded.iter().position(|&v| v == p % row_len).unwrap(); fri0.push(l0[i * folding + p / row_len]); }
+            }
+        }
+    }
+    let pow_ok = match log.pow { Some(x) => x >= popts.grinding_factor(), None => true };
+    let fname = field_name::<B>();
+    // the family by its definition: main assertion col0[0] = 0, auxiliary assertion aux0[0] = 0, Lagrange column = last
+    let case = format!(
+        "verify {} tag={} famk=lag ext={} aw={:x} ntm={:x} lag={:x} gkr={} emod={} acc={} fric=1 pow={} tauth={} cauth={} fri0={} n={:x} k=1 g={} glde={} off={} per=- groups=0:1:0/1/0 agroups=0:1:0/1/{} ar={} tc={} bc={} lr={} ltc={} lbc={} ldc={} z={} dt={} dc={} pos={} pmod={} popts={} cur={} next={} acur={} anext={} lfr={} evals={} qt={} qa={} qc={}",
+        fname, tag, E::EXTENSION_DEGREE, aw, ntm, aw - 1, gkr_ok as u8, modulus_hex::<B>(), acc_opts.iter().map(opts_words).collect::<Vec<_>>().join("|"), pow_ok as u8, tauth as u8, cauth as u8, lst(&fri0),
+        n, fhex(air.trace_domain_generator()), fhex(air.lde_domain_generator()), fhex(air.domain_offset()), zero,
+        ar, tc, bc, lr, ltc, lbc, ldc, z, dt, dc, if positions.is_empty() { "-".into() } else { positions.iter().map(|p| format!("{:x}", p)).collect::<Vec<_>>().join(",") },
+        { let mut b = proof.context.field_modulus_bytes().to_vec(); b.reverse(); let s: String = b.iter().map(|x| format!("{:02x}", x)).collect(); s.trim_start_matches('0').to_string() },
+        opts_words(&popts), lst(&cur), lst(&next), lst(&acur), lst(&anext), lst(&lfr), lst(&evals), rows(&qt), rows(&qa), rows(&qc));
+    if verdict == "deser" || verdict == "panic" || verdict == "other" || verdict == "coin" || verdict == "ext" { return; }
+    let res_str = if verdict == "accept" { format!("accept {}", lst(&fri0)) } else { verdict };
+    out.push(format!("{} => {}", case, res_str));
+}
+
+fn lag_corr_one<B, E, H>(r: &mut Rng, log_n: u32, aw: usize, nr: usize, o: &Opts, out: &mut Vec<String>) -> Result<(), String>
+where B: StarkField + ExtensibleField<2> + ExtensibleField<3> + 'static, E: FieldElement<BaseField = B>, H: ElementHasher<BaseField = B> + Send + Sync {
+    let opts = make_opts(o).ok_or("options")?;
+    let trace = LagTrace::<B>::new(log_n, aw, nr);
+    let prover = LagProver::<B, H, DefaultRandomCoin<H>>::new(opts.clone(), aw);
+    let proof = match catch(AssertUnwindSafe(|| prover.prove(trace))) { Ok(Ok(p)) => p, _ => return Err("prove".into()) };
+    let _ = wf_harness::lagfam::take_uses();
+    let bytes = proof.to_bytes();
+    let p = || Proof::from_bytes(&bytes).unwrap();
+    let air = LagAir::<B>::new(proof.trace_info().clone(), (), opts.clone());
+    let (w, v) = (1usize, log_n as usize);
+    let lde = air.lde_domain_size();
+    let ncols = air.context().num_constraint_composition_columns();
+    let nq = proof.num_unique_queries as usize;
+    let accv = vec![opts.clone()];
+    lag_corr_line::<B, E, H>("honest", p(), &accv, out);
+    let (frame, evals) = p().ood_frame.parse::<E>(w, aw, ncols).map_err(|e| e.to_string())?;
+    let lfr: Vec<E> = frame.lagrange_kernel_frame().map(|l| l.inner().to_vec()).ok_or("no-lagrange-frame")?;
+    let rebuild = |cur: Vec<E>, next: Vec<E>, lf: Vec<E>, ev: Vec<E>| -> OodFrame {
+        let mut f = OodFrame::default();
+        f.set_trace_states::<E, H>(&TraceOodFrame::new(cur, next, w, Some(LagrangeKernelEvaluationFrame::new(lf))));
+        f.set_constraint_evaluations(&ev);
+        f
+    };
+    // an entry of the Lagrange OOD frame: entry 0 (read by every constraint and the boundary constraint), entry 1 (read by the
+    // LAST transition constraint only), a random one
+    for (tag, i) in [("lag-ood-frame-0", 0usize), ("lag-ood-frame-1", 1), ("lag-ood-frame-any", r.below((v + 1) as u64) as usize)] {
+        let mut lf = lfr.clone();
+        lf[i] += E::ONE;
+        let mut pr = p(); pr.ood_frame = rebuild(frame.current_row().to_vec(), frame.next_row().to_vec(), lf, evals.clone());
+        lag_corr_line::<B, E, H>(tag, pr, &accv, out);
+    }
+    {
+        // an out-of-domain value of the ordinary auxiliary column
+        let (mut cur, next) = (frame.current_row().to_vec(), frame.next_row().to_vec());
+        cur[w] += E::ONE;
+        let mut pr = p(); pr.ood_frame = rebuild(cur, next, lfr.clone(), evals.clone());
+        lag_corr_line::<B, E, H>("ood-aux-cur", pr, &accv, out);
+    }
+    {
+        // the GKR verdict: a GKR proof the family's verifier refuses
+        let mut pr = p(); pr.gkr_proof = Some(winter_utils::Serializable::to_bytes(&65usize));
+        lag_corr_line::<B, E, H>("gkr-refused", pr, &accv, out);
+    }
+    {
+        // the Lagrange random elements: the GKR step yields one more element (every later coin output moves)
+        let mut pr = p(); pr.gkr_proof = Some(winter_utils::Serializable::to_bytes(&(v + 1)));
+        lag_corr_line::<B, E, H>("gkr-other-rands", pr, &accv, out);
+    }
+    {
+        // a queried value of the Lagrange kernel column
+        let (mp, table) = p().trace_queries[1].clone().parse::<H, E>(lde, nq, aw).map_err(|e| e.to_string())?;
+        let mut rws: Vec<Vec<E>> = table.rows().map(|x| x.to_vec()).collect();
+        let i = r.below(rws.len() as u64) as usize;
+        rws[i][aw - 1] += E::ONE;
+        let mut pr = p(); pr.trace_queries[1] = Queries::new::<H, E>(mp, rws);
+        lag_corr_line::<B, E, H>("queried-lagrange-value", pr, &accv, out);
+    }
+    {
+        let mut ev = evals.clone();
+        let c = r.below(ev.len() as u64) as usize;
+        ev[c] += E::ONE;
+        let mut pr = p(); pr.ood_frame = rebuild(frame.current_row().to_vec(), frame.next_row().to_vec(), lfr.clone(), ev);
+        lag_corr_line::<B, E, H>("ood-constraint-eval", pr, &accv, out);
+    }
+    Ok(())
+}
+
+fn lag_corr_ext<B, H>(r: &mut Rng, log_n: u32, aw: usize, nr: usize, o: &Opts, out: &mut Vec<String>) -> Result<(), String>
+where B: StarkField + ExtensibleField<2> + ExtensibleField<3> + 'static, H: ElementHasher<BaseField = B> + Send + Sync {
+    match o.ext {
+        1 => lag_corr_one::<B, B, H>(r, log_n, aw, nr, o, out),
+        2 => lag_corr_one::<B, QuadExtension<B>, H>(r, log_n, aw, nr, o, out),
+        _ => lag_corr_one::<B, CubeExtension<B>, H>(r, log_n, aw, nr, o, out),
+    }
+}
+
+/// Lagrange members of the correspondence: extension {1, 2} x n in {8, 16, 64} (+ one cubic), `rounds` times
+fn lag_corr(r: &mut Rng, rounds: usize) -> Vec<String> {
+    let mut out = vec![];
+    let plan: [(u8, u32); 7] = [(1, 3), (2, 3), (1, 4), (2, 4), (1, 6), (2, 6), (3, 4)];
+    for round in 0..rounds {
+        for (pi, &(ext, log_n)) in plan.iter().enumerate() {
+            for _attempt in 0..20 {
+                let field = ["f64", "f64", "f62", "f64", "f128", "f62", "f64"][(pi + round) % 7];
+                let field = if ext_supported(field, ext) { field } else { "f64" };
+                let n = 1usize << log_n;
+                let blowup = *r.pick(&[2usize, 4, 8]);
+                let lde = n * blowup;
+                let (fold, rem) = pick_fri(r, lde, blowup);
+                let o = Opts { q: 1 + r.below(6) as usize, blowup, grind: 0, ext, fold, rem };
+                let po = match make_opts(&o) { Some(p) => p, None => continue };
+                if !fri_wellformed(lde, blowup, fold, rem) || o.q >= lde || po.to_fri_options().num_fri_layers(lde) == 0 { continue; }
+                let (aw, nr) = (2 + r.below(2) as usize, r.below(3) as usize);
+                let res = match field {
+                    "f64" => lag_corr_ext::<B64, Blake3_256<B64>>(r, log_n, aw, nr, &o, &mut out),
+                    "f128" => lag_corr_ext::<B128, Blake3_256<B128>>(r, log_n, aw, nr, &o, &mut out),
+                    _ => lag_corr_ext::<B62, Sha3_256<B62>>(r, log_n, aw, nr, &o, &mut out),
+                };
+                if res.is_ok() { break; }
+            }
+        }
+    }
+    out
+}
+
 fn corr_ext<B, H>(r: &mut Rng, spec: &Spec, o: &Opts, out: &mut Vec<String>) -> Result<(), String>
 where B: StarkField + ExtensibleField<2> + ExtensibleField<3> + 'static, H: ElementHasher<BaseField = B> + Send + Sync {
     match o.ext {
@@ -1259,6 +1472,9 @@ fn cmd_run(args: &[String], cmd: String, seed: u64, n: usize) {
         "corr" => {
             let mut r = Rng::new(seed ^ 0xC02C);
             for l in corr(&mut r, n) { println!("{}", l); }
+            // the Lagrange members: one round of 7 base proofs per 24 ordinary ones
+            let mut r = Rng::new(seed ^ 0xC02D);
+            for l in lag_corr(&mut r, (n / 24).max(1)) { println!("{}", l); }
         }
         "falsify" | "one" => {
             if let Some(m) = args.get(if cmd == "one" { 5 } else { 4 }).and_then(|s| s.parse::<u32>().ok()) { MAX_LOG_N.store(m.clamp(6, 12), std::sync::atomic::Ordering::Relaxed); }
